@@ -56,7 +56,7 @@ spec fn se_val<T>(e: StreamElement<T>) -> Option<T> {
     match e { StreamElement::Item(x) => Some(x), StreamElement::Timestamped(x, _) => Some(x), _ => None }
 }
 
-spec fn n_slots(size: int, slide: int) -> int { (size + slide - 1) / slide }
+spec fn sp_n_slots(size: int, slide: int) -> int { (size + slide - 1) / slide }
 
 broadcast use trusted_axioms::axiom_data_clone;
 '''
@@ -78,7 +78,7 @@ impl<A: WindowAccumulator> CountWindowManager<A> {
         &&& self.init.contents() =~= Seq::empty()
     }
     spec fn inv(&self) -> bool {
-        let m = n_slots(self.size as int, self.slide as int);
+        let m = sp_n_slots(self.size as int, self.slide as int);
         &&& self.wf()
         &&& self.cur().len() < self.size
         &&& forall|i: int| 0 <= i < self.ws@.len() ==> #[trigger] self.slot_ok(i)
@@ -97,10 +97,10 @@ spec fn ts0<A: WindowAccumulator>(m: &CountWindowManager<A>) -> Option<Timestamp
 // ---- arithmetic lemmas -----------------------------------------------------------------------
 proof fn lemma_slots(size: int, slide: int)
     requires 1 <= slide <= size,
-    ensures n_slots(size, slide) >= 1,
-            n_slots(size, slide) == (size - 1) / slide + 1,
-            n_slots(size, slide) * slide >= size,
-            (n_slots(size, slide) - 1) * slide < size,
+    ensures sp_n_slots(size, slide) >= 1,
+            sp_n_slots(size, slide) == (size - 1) / slide + 1,
+            sp_n_slots(size, slide) * slide >= size,
+            (sp_n_slots(size, slide) - 1) * slide < size,
 {
     let q = (size - 1) / slide;
     vstd::arithmetic::div_mod::lemma_fundamental_div_mod(size - 1, slide);
@@ -347,13 +347,13 @@ def build(x):
     pr.add_loop_spec(1, r'''
                     invariant
                         self.same_params(old(self)), self.wf(),
-                        1 <= n_slots(self.size as int, self.slide as int),
+                        1 <= sp_n_slots(self.size as int, self.slide as int),
                         self.ws@.len() >= old(self).ws@.len(),
-                        self.ws@.len() <= n_slots(self.size as int, self.slide as int),
+                        self.ws@.len() <= sp_n_slots(self.size as int, self.slide as int),
                         forall|j: int| 0 <= j < old(self).ws@.len() ==> self.ws@[j] == old(self).ws@[j],
                         forall|j: int| old(self).ws@.len() <= j < self.ws@.len() ==>
                             (#[trigger] self.ws@[j]).count == 0 && self.ws@[j].acc.contents() =~= Seq::<A::In>::empty() && self.ws@[j].ts is None,
-                    decreases n_slots(self.size as int, self.slide as int) - self.ws@.len(),
+                    decreases sp_n_slots(self.size as int, self.slide as int) - self.ws@.len(),
     ''')
     pr.insert_before('while self.ws.len() <', r'''proof {
                     lemma_slots(self.size as int, self.slide as int);
@@ -362,7 +362,7 @@ def build(x):
     pr.insert_before(re.compile(r'let %s(?:\s*:\s*[\w<>:]+)? = ' % re.escape(pr.names['k'])), r'''let ghost mid = *self;
                 proof {
                     lemma_slots(self.size as int, self.slide as int);
-                    let m = n_slots(self.size as int, self.slide as int);
+                    let m = sp_n_slots(self.size as int, self.slide as int);
                     assert(self.ws@.len() == m);
                     assert(self.cur() =~= old(self).cur());
                     assert forall|j: int| 0 <= j < self.ws@.len() implies #[trigger] self.slot_ok(j) by {
@@ -387,7 +387,7 @@ def build(x):
                     invariant
                         self.same_params(old(self)), self.wf(),
                         @{k} <= self.ws@.len(), self.ws@.len() == mid.ws@.len(),
-                        mid.ws@.len() == n_slots(self.size as int, self.slide as int),
+                        mid.ws@.len() == sp_n_slots(self.size as int, self.slide as int),
                         forall|j: int| 0 <= j < mid.ws@.len() ==> (#[trigger] mid.ws@[j]).count < self.size,
                         forall|j: int| @{i} <= j < self.ws@.len() ==> self.ws@[j] == mid.ws@[j],
                         forall|j: int| 0 <= j < @{i} ==> (#[trigger] self.ws@[j]).count == mid.ws@[j].count + 1
@@ -430,7 +430,7 @@ def build(x):
                     proof {
                         let c2 = upd.cur();
                         let sl = self.slide as int;
-                        let m = n_slots(self.size as int, sl);
+                        let m = sp_n_slots(self.size as int, sl);
                         lemma_slots(self.size as int, sl);
                         assert(self.ws@ =~= upd.ws@.skip(1));
                         assert(upd.slot_ok(0));
